@@ -148,6 +148,16 @@ func oracleC13CLI(p *Pair, env *Env, a [][]byte) *Failure {
 	if (c.exit != 0) != changed {
 		return &Failure{What: "renumber-tests --check verdict differs from 'a rewrite would change the file'", Detail: fmt.Sprintf("exit %d, would change: %v, input %q", c.exit, changed, in)}
 	}
+	// the same in --all mode, text and github output
+	for _, out := range []string{"text", "github"} {
+		c = runCLI(env, sb, nil, "-l", "disabled", "-o", out, "util", "renumber-tests", "-c", "-a")
+		if d := diffSnap(before, snapshot(sb)); len(d) > 0 {
+			return &Failure{What: "renumber-tests --check --all (-o " + out + ") wrote to the tree", Detail: strings.Join(d, ", ")}
+		}
+		if (c.exit != 0) != changed {
+			return &Failure{What: "renumber-tests --check --all verdict differs from 'a rewrite would change the file'", Detail: fmt.Sprintf("-o %s exit %d, would change: %v, input %q", out, c.exit, changed, in)}
+		}
+	}
 	c = runCLI(env, sb, nil, "-l", "disabled", "util", "renumber-tests", ruleId)
 	if c.exit != 0 {
 		return &Failure{What: "renumber-tests failed on a plain file", Detail: fmt.Sprintf("exit %d %s", c.exit, c.stderr)}
